@@ -304,6 +304,21 @@ def handle (op : String) (args : List String) (impl : String) : Option Verdict :
                           < ((bs.map fun b => (b.ps.map (·.key)).eraseDups).flatten).length)
     let faults := st0.any fun e => e.2 = .readErr || e.2 = .writeErr
     return ⟨"!".intercalate outs, ok, s!"batch:n={min bs.length 4}:dup-in-batch={dup}:dup-across={cross}:store-faults={faults}"⟩
+  | "multi", [rate, cid, steps] => some <| Id.run do
+    -- one MempoolAPI client + one executor across withdrawals for several bridge addresses: every step is judged on its own
+    -- (history-free): its inputs are a prefix of THAT address's ordered listing as it is at that moment, P16 for its proposals
+    let some ss := (steps.splitOn "!").mapM (fun (st : String) => match st.splitOn "^" with
+      | [br, ps, l] => (parseInp rate cid br ps l).map fun i => { i with utxos := i.utxos.map sortUtxos }
+      | _ => none) | return badArgs
+    let outs := impl.splitOn "!"
+    let m := "!".intercalate (ss.map fun i => match rawTx i with | none => "err" | some tx => (showTx tx).replace "|" "/")
+    let ok := outs.length == ss.length && (ss.zip outs).all fun (i, o) =>
+      if o = "err" then true
+      else match parseTx (i.utxos.getD []) (o.replace "/" "|") with
+        | some t => decide (P16 i (some t))
+        | none => false
+    let addrs := (steps.splitOn "!").map fun (st : String) => (st.splitOn ":").headD ""
+    return ⟨m, ok, s!"multi:steps={min ss.length 5}:addresses={min addrs.eraseDups.length 3}:txs={min ((ss.filter fun i => (rawTx i).isSome).length) 3}"⟩
   | _, _ => none
 
 end Sygma.Drv.C16
